@@ -714,6 +714,7 @@ structure GetItemRes (s : State) (o : Nat) (sel : Sel) (o' : Nat) (s' : State) :
   syss : s'.syss = s.syss
   keys : (s'.obj o').keys = "atype" :: "pos" :: (s.obj o).keys.filter (fun k => k != "atype" && k != "pos")
   oob : sel.oob = false
+  inRange : ∀ i ∈ sel.pos, i < (s.obj o).natoms
   cols : ∀ p ∈ (s.obj o).props, ∃ p' ∈ (s'.obj o').props, ColRel s sel s' p p'
   colsRev : ∀ p' ∈ (s'.obj o').props, ∃ p ∈ (s.obj o).props, ColRel s sel s' p p'
 
@@ -762,7 +763,7 @@ theorem getItemRes_of_built {κ κ1 : Nat → String} {s s1 s' : State} (h : Inv
   have hoob : sel.oob = false := by
     obtain ⟨p, _, hv⟩ := hviews.mem_right qa hqa
     exact hv.oob
-  refine ⟨rfl, ?_, hheap.trans hb.heap, ?_, ?_, hb.syss.trans hsys, ?_, hoob, ?_, ?_⟩
+  refine ⟨rfl, ?_, hheap.trans hb.heap, ?_, ?_, hb.syss.trans hsys, ?_, hoob, hpos, ?_, ?_⟩
   · rw [hb.natoms, ← hlen, obj_push_eq]
   · intro o'' ho''
     rw [hb.objs o'' (Nat.ne_of_lt ho''), obj_push_lt _ _ _ (by rw [hlen]; exact ho'')]
